@@ -512,6 +512,30 @@ func ruleC16Only(r *Run) {
 				asserted = factHolds(in, func(cond ssa.Value, truth bool) bool { return cond == okv && truth })
 			}
 		}
+		if _, isPhi := h.(*ssa.Phi); isPhi && !asserted {
+			// the handler travels through a merged local (helper returning (fn, ok)): decide per path
+			asserted = allPathsTo(in, func(p *pathCtx) bool {
+				hv := resolvePhi(h, p)
+				if ct, ok := hv.(*ssa.ChangeType); ok {
+					hv = ct.X
+				}
+				ex, ok := hv.(*ssa.Extract)
+				if !ok || ex.Index != 0 {
+					return false
+				}
+				ta, ok := ex.Tuple.(*ssa.TypeAssert)
+				if !ok || !ta.CommaOk {
+					return false
+				}
+				okv := extractOf(ta, 1)
+				for _, d := range p.decs {
+					if d.Cond == okv && d.Truth {
+						return true
+					}
+				}
+				return false
+			})
+		}
 		r.Check(rule, construct, w.InstrPos(in), valid && asserted, map[bool]string{true: "registered only when the controller has the method (IsValid) with the handler signature (checked assertion); the handler is that method", false: "an action is registered without the controller implementing it (or with another handler)"}[valid && asserted])
 		// at most once per iteration
 		again := pathExists(cb, in, func(x ssa.Instruction) bool {
